@@ -27,26 +27,26 @@ fn is_valid_continue(c: char) -> bool {
 fn strip_identifier(s: &str) -> Option<&str> {
     let mut iter = s.char_indices();
     // Is the first character a valid starting character
-    match iter.next() {
+    let mut end_idx = match iter.next() {
         Some((_, c)) => {
             if !is_valid_start(c) {
                 return None;
             }
+            c.len_utf8()
         }
         None => {
             return None;
         }
     };
-    // Slice up to the last valid continuation character
-    let mut end_idx = 0;
+    // Slice up to the end of the last valid continuation character
     for (i, c) in iter {
         if is_valid_continue(c) {
-            end_idx = i;
+            end_idx = i + c.len_utf8();
         } else {
             break;
         }
     }
-    Some(&s[..=end_idx])
+    Some(&s[..end_idx])
 }
 
 pub fn is_valid_javascript_identifier(s: &str) -> bool {
